@@ -960,6 +960,16 @@ def run(tier, seed, replay=None):
         exhaustive=False)
     if fidelity:
         print("NOTE: %d case(s) where the query text differs from the model's text but denotes the same string (fidelity)" % fidelity)
+    evf = common.ROOT / "evidence" / ("%s.json" % PROP)
+    keep = evf.read_text() if (replay and evf.exists()) else None      # a replay does not replace the evidence of the last full run
+    try:
+        return _finish(tier, seed, proofs, coverage, violations, known_seen, t0)
+    finally:
+        if keep is not None:
+            evf.write_text(keep)
+
+
+def _finish(tier, seed, proofs, coverage, violations, known_seen, t0):
     return common.finish(PROP, tier, seed, proofs, coverage, violations, known_seen, t0,
                          assumptions=["an identifier is in the property's domain when the constructor/setter accepts it and it is XML text (no control characters); "
                                       "when the setter normalises it (Table strips white space) the normalised name is the identifier",
